@@ -18,7 +18,7 @@ SPEC = {
         "Coq 8.16.1 kernel (coqc; coqchk in the thorough tier); no native_compute",
         "harness/cmd/gen sigcontexts (go/ast walk over every non-test .go file under go/: signature.NewContext literals with WithChainSeparation/WithDynamicSuffix options, chainContextSeparator/chainContextMaxSize of signer.go, transaction.SignatureContext, MethodMetadata() implementers)",
         "harness/cmd/gen sigoptions (go/ast: the ed25519.VerifyOptions / Options literal of go/common/crypto/signature, other option fields, verification calls that bypass the literal)",
-        "harness/cmd/gen noncewriters (go/ast: syntactic writes of .General.Nonce / GeneralAccount literals with a Nonce field / whole-struct .General assignments in non-test sources; pointer aliases are not seen)",
+        "harness/cmd/gen noncewriters (go/ast: syntactic writes of .General.Nonce / GeneralAccount literals with a Nonce field / whole-struct .General assignments, and writers or DELETERS of whole account records -- store operations on accountKeyFmt, SetAccount with an Account literal -- in non-test sources; pointer aliases are not seen)",
         "verif-tagged go/common/crypto/signature/export_verif.go (lists the run-time context registry for the cross-check with the go/ast list)",
         "harness/cmd/auth + verifharness/internal/muxdrv (drives the real ABCI multiplexer with all consensus apps; abstracts byte strings with the repository's CBOR decoder and an independent check: digest built by the harness with stdlib SHA-512/256; Ed25519 by curve25519-voi under the harness' OWN fixed rules (equation holds, A and R not of small order, non-canonical encodings tolerated) -- the repository's defaultOptions are not imported; differences to stdlib crypto/ed25519 are counted, not judged)",
         "vm_compute evaluation of Verif.Auth.Corr (instance of Verif.Auth.Model) on the recorded blocks (no extraction)",
